@@ -61,6 +61,7 @@ type Violation struct {
 	Site   string            `json:"site"`
 	Detail string            `json:"detail,omitempty"`
 	Model  map[string]string `json:"model,omitempty"`
+	AltModels []map[string]string `json:"alt_models,omitempty"`
 	Now    string            `json:"now,omitempty"`
 }
 type SchedEv struct {
